@@ -150,6 +150,25 @@ def auto_discharge(db, fn, site, T, fl, dom, guards):
         if d in ('step_by', 'chunks', 'chunks_exact', 'windows', 'rchunks'):
             # these panic exactly when the step / chunk size is zero
             return nonzero(db, fn, args[1], site['bb']) if len(args) > 1 else None
+        if d in ('remove', 'swap_remove') and len(args) > 1:
+            # v.remove(0) panics exactly when v is empty
+            ix = T.operand(args[1])
+            if ix != ('val', 0):
+                return None
+            recv = T.operand(args[0])
+            lv = set(fl.operand_leaves(args[0]))
+            for g in guards:
+                if g.rel == 'NONEMPTY' and g.bb in dom.get(site['bb'], ()) and g.bb != site['bb'] and set(g.lhs) == lv and lv \
+                        and site['bb'] in cfgmod.reach_accept(fn):
+                    return 'element 0 of a vector tested non-empty by a dominating guard'
+            # every feasible path to the site has matched first()/last() of the same vector as Some
+            ps = exprtree.paths_to(fn, site['bb'], limit=600)
+            if ps:
+                feas = [pt for pt in (exprtree.PathTrees(db, fn, pth) for pth in ps) if pt.consistent()]
+                if feas and all(any(isinstance(c, tuple) and c[0] == 'discr' and isinstance(c[1], tuple) and c[1][0] in ('first', 'last')
+                                    and c[1][1] == recv and v == '1' for c, v in pt.decisions()) for pt in feas):
+                    return 'element 0 of a vector whose first() was matched as Some on every path to the site'
+            return None
         if d == 'index':
             tr = T.operand(args[1]) if len(args) > 1 else None
             base = exprtree.show(T.operand(args[0])) if args else ''
